@@ -13,7 +13,7 @@ SPEC = dict(
     targets=["Properties/C02.vo", "Corr/C02.vo"],
     args=lambda tier, seed: ["-seed", seed, "-mix", "c02", "-n", 160 if tier == "quick" else 3000, "-events", 40],
     search_args=lambda seed: ["-seed", seed, "-mix", "c02", "-n", 400, "-events", 40],
-    shard=12, timeout=2400,
+    shard=4, timeout=2400,
     patterns={2: "C02-zero-window-stall"},
     rule="seeded scripts of <= 40 events against an established connection of the real stack (ISS/IRS adjacent to 0, 2^31, 2^32 and random; peer MSS 20..1460, window scale, timestamps, SACK, IPv4/IPv6, small/large buffers), close mix: application writes, cumulative ACKs with occasional zero/tiny windows, peer data in order / ahead / overlapping (a FIN on the last slice), reads, shutdown of the write side, peer FINs in and out of order, retransmission time-outs delivered as explicit events (time is an input); after EVERY event the implementation's protocol state, emitted frames and application result are compared with Model.Tcp.step, and the close/stall monitor (Corr/C02.v spec) is evaluated on the implementation's observations alone; tag bits: 1 FIN sent, 2 FIN received, 4 closed state reached, 8 zero send window seen, 16 retransmission time-out; distinct = distinct case lines",
     trusted_base=TCP_TB, assumptions=TCP_ASSUME, post=_post,
